@@ -186,16 +186,31 @@ class Universe:
             "wrappers": [[k, v] for k, v in meta.wrappers.items()],
         }
 
+    def parent_namespaces(self):
+        out = [None]
+        for c in self.desc["classes"]:
+            ns = (c.get("meta") or {}).get("namespace")
+            if ns and ns not in out:
+                out.append(ns)
+            for f in c["fields"]:
+                ns = f.get("metadata", {}).get("namespace")
+                if ns and not ns.startswith("##") and ns not in out:
+                    out.append(ns)
+        return out
+
     def export_ctx(self):
-        """Export with a *fresh* context so that no history leaks into the metadata."""
-        ctx = XmlContext(models_package=self.modname)
+        """Export the metadata of every class under every parent namespace, each built
+        by a fresh builder so that no cache history leaks into the metadata."""
         classes = []
         for name, cls in self.classes.items():
-            meta = ctx.build(cls)
+            metas = []
+            for pns in self.parent_namespaces():
+                ctx = XmlContext(models_package=self.modname)
+                metas.append([pns, self.export_meta(ctx.build(cls, pns))])
             classes.append(
                 {
                     "id": name,
-                    "meta": self.export_meta(meta),
+                    "metas": metas,
                     "mro": [k.__name__ for k in cls.__mro__ if k is not object],
                     "bases": [k.__name__ for k in cls.__bases__ if k is not object],
                     "fields": [
